@@ -3,6 +3,7 @@ package dom
 import (
 	"bytes"
 	"encoding/json"
+	"strconv"
 	"strings"
 
 	res "github.com/jirenius/go-res"
@@ -30,7 +31,8 @@ var codecStrings = []string{"", "a", "x.y", "svc.model.42", "with space", "quo\"
 var codecValues = []string{`null`, `true`, `false`, `0`, `-1.5e3`, `12`, `"s"`, `""`, `"a\"b"`, `[]`, `[1,2]`, `{}`, `{"a":1}`, `{"a":{"b":[1,null]}}`, `[{"x":"y"}]`, `"ünï"`,
 	`{"rid":"x.y"}`, `{"rid":"x.y","soft":true}`, `{"rid":"x.y","soft":false}`, `{"action":"delete"}`, `{"data":1}`, `{"data":{"a":1}}`, `{"data":[1]}`, `{"data":null}`, `{"data":"s"}`,
 	`{"rid":""}`, `{"rid":"a..b"}`, `{"rid":"x","action":"delete"}`, `{"rid":"x","data":1}`, `{"action":"remove"}`, `{"action":"delete","data":1}`, `{"foo":"bar"}`, `{"rid":5}`,
-	`{"rid":"x.y","extra":1}`, `{"action":"delete","extra":[1]}`, `{"data":{"a":1},"z":2}`, `{"soft":true}`, `{"rid":"x.y","soft":"yes"}`, `{"rid":"x?q=1"}`, `{"rid":"x.*"}`, `{"data":true,"soft":true}`}
+	`{"rid":"x.y","extra":1}`, `{"action":"delete","extra":[1]}`, `{"data":{"a":1},"z":2}`, `{"soft":true}`, `{"rid":"x.y","soft":"yes"}`, `{"rid":"x?q=1"}`, `{"rid":"x.*"}`, `{"data":true,"soft":true}`,
+	`{"rid":"a..b","soft":true}`, `{"rid":"x.*","soft":true}`, `{"rid":"x y","soft":true}`, `{"rid":"","soft":true}`, `{"rid":"x?q=1","soft":true}`, `{"rid":"x..y","soft":false}`, `{"rid":"å","soft":true}`}
 
 func wsVariant(r *gen.R, s string) string {
 	// surrounding whitespace and whitespace after separators (outside of strings only at the ends and after , and :)
@@ -51,6 +53,9 @@ func (codecDom) Gen(r *gen.R, tier string, emit func(string)) {
 	}
 	for _, v := range codecValues {
 		emit(wire.Line("mdv", v))
+		if canonJSON([]byte(v)) == v { // encoding/json sorts the members of a map: only texts that are already in that order
+			emit(wire.Line("dv", v))
+		}
 		emit(wire.Line("udv", v))
 		emit(wire.Line("val", v))
 		emit(wire.Line("resp", v))
@@ -175,6 +180,48 @@ func (codecDom) Exec(a []string) string {
 				return wire.Enc(string(out)) + "|err"
 			}
 			return wire.Enc(string(out)) + "|" + wire.Enc(compactJSON(raw))
+		case "dv":
+			// res.DataValue[T] with T the concrete Go type of the decoded value, and with T = interface{}
+			var x interface{}
+			dec := json.NewDecoder(strings.NewReader(a[1]))
+			dec.UseNumber() // numbers keep their text
+			if err := dec.Decode(&x); err != nil {
+				return "err"
+			}
+			var outs [][]byte
+			add := func(b []byte, err error) {
+				if err != nil {
+					b = []byte("marshal-error")
+				}
+				outs = append(outs, b)
+			}
+			add(json.Marshal(res.DataValue[interface{}]{Data: x}))
+			switch t := x.(type) {
+			case []interface{}:
+				add(json.Marshal(res.DataValue[[]interface{}]{Data: t}))
+				add(json.Marshal(res.NewDataValue(t)))
+			case map[string]interface{}:
+				add(json.Marshal(res.DataValue[map[string]interface{}]{Data: t}))
+			case string:
+				add(json.Marshal(res.DataValue[string]{Data: t}))
+			case json.Number:
+				add(json.Marshal(res.DataValue[json.Number]{Data: t}))
+				if f, err := t.Float64(); err == nil && strconv.FormatFloat(f, 'f', -1, 64) == t.String() {
+					add(json.Marshal(res.DataValue[float64]{Data: f}))
+				}
+			case bool:
+				add(json.Marshal(res.DataValue[bool]{Data: t}))
+			}
+			for _, o := range outs[1:] {
+				if !bytes.Equal(o, outs[0]) {
+					return wire.Enc(string(o)) + "|differs-by-static-type"
+				}
+			}
+			var raw json.RawMessage
+			if err := resprot.UnmarshalDataValue(outs[0], &raw); err != nil {
+				return wire.Enc(string(outs[0])) + "|err"
+			}
+			return wire.Enc(string(outs[0])) + "|" + wire.Enc(compactJSON(raw))
 		case "udv":
 			var raw json.RawMessage
 			if err := resprot.UnmarshalDataValue([]byte(a[1]), &raw); err != nil {
